@@ -101,6 +101,16 @@ Definition alias_read (am : aobj) (q : query) (s : state) : state * outcome qval
   | QNbytes => (s, match nbytes_of (resolve am) s with Ret n => Ret (VNat n) | Raise e => Raise e end)
   end.
 
+(* k in self.__dict__ *)
+Definition dict_key (s : state) (k : string) : bool :=
+  (mem k ["span"; "index"; "_strict"; "_attributes"; "aliases"; "preferred_names"] ||
+   match kind s with CLinker _ => mem k ["submodels"; "name"; "_LAGS"; "_LEADS"] | _ => false end ||
+   match assoc k (adict s) with Some _ => true | None => false end ||
+   (underscored k && match assoc (tail_of k) (vars s) with Some _ => true | None => false end))%bool.
+
+Definition alias_clash (classattrs : list string) (am : aobj) (s : state) : bool :=
+  existsb (fun k => (mem k (index s) || dict_key s k || mem k classattrs)%bool) (akeys (amap am)).
+
 Section AliasOps.
   Variable pycast : dtype -> pyval -> outcome pyval.
   Variable arrcast : dtype -> dtype -> pyval -> outcome pyval.
@@ -117,9 +127,15 @@ Section AliasOps.
   Fixpoint gen_alias_run (am : aobj) (ops : list op) (s : state) : state :=
     match ops with [] => s | o :: r => gen_alias_run am r (fst (gen_alias_step am o s)) end.
 
-  Definition gen_alias_init_model (am : aobj) (k : ckind) (sp : list Z) (st : bool) (d : dreq) (default : operand)
-             (NAMES : list string) (kwargs : list (string * operand)) : res :=
-    init_model pycast arrcast infer astype_dt k sp st d default NAMES (resolve_kwargs am kwargs).
+  (* fix 4e03fd0: after the wrapped constructor has run, an alias named like a variable, like an entry of the object's __dict__ or
+     like an attribute of its class is refused.  `classattrs` = the names for which hasattr(type(self), name) holds (the class is
+     Python's business: handed in, like difflib's answer) *)
+  Definition gen_alias_init_model (classattrs : list string) (am : aobj) (k : ckind) (sp : list Z) (st : bool) (d : dreq)
+             (default : operand) (NAMES : list string) (kwargs : list (string * operand)) : res :=
+    match init_model pycast arrcast infer astype_dt k sp st d default NAMES (resolve_kwargs am kwargs) with
+    | (s, Ret u) => if alias_clash classattrs am s then (s, Raise InitialisationError) else (s, Ret u)
+    | r => r
+    end.
 End AliasOps.
 
 Definition alias_step := gen_alias_step np_pycast np_arrcast np_infer np_astype_dt np_itemseq_exn.
